@@ -1060,6 +1060,14 @@ func (p *parser) structDeclaration() ast.Declaration {
 		fields = append(fields, field)
 
 		if fieldVar, isVar := field.(*ast.VarDecl); isVar {
+			// two fields of one Kombination may not have the same name
+			for _, other := range fields[:len(fields)-1] {
+				if otherVar, isVar := other.(*ast.VarDecl); isVar && otherVar.Name() == fieldVar.Name() {
+					p.err(ddperror.SEM_NAME_ALREADY_DEFINED, fieldVar.NameTok.Range, ddperror.MsgNameAlreadyExists(fieldVar.Name()))
+					break
+				}
+			}
+
 			if generics, isGeneric := ddptypes.CastDeeplyNestedGenerics(fieldVar.Type); isGeneric {
 				fieldGenericMap[fieldVar.Name()] = generics
 				for _, generic := range generics {
